@@ -57,7 +57,7 @@ class Rec:
     def kvc_getattr(self, interp, name):
         if name in self.attrs:
             return self.attrs[name]
-        if name.startswith('kvc_') or name.startswith('__') and name not in ('__name__', '__class__'):
+        if name.startswith('kvc_') or name.startswith('__') and name not in ('__name__', '__class__', '__bool__'):
             raise AttributeError(name)
         return Rec('attr', self, name)
 
